@@ -42,7 +42,7 @@ def gen(tier, rng):
         cases.append(Case(sess.session(["R5000"] + typeit + final_run(prog, inputs)), sig=key, tag="fresh", meta=("fresh", pi, None)))
         variants = []
         # (b) an earlier complete run
-        variants.append(("rerun", typeit + [sess.E("RUN"), "R5000"] + ["A5000:" + sess.hx(r) for r in inputs]))
+        variants.append(("rerun", typeit + [sess.E("RUN"), "R5000"] + ["A5000:" + sess.hx(r) for r in inputs] + ["I", "R5000"]))
         # (c) interrupted run + dirtying direct statements
         k = rng.randint(2, 150)
         pre = typeit + [sess.E("RUN")] + ["X1"] * k + ["I", "R5000"]
@@ -53,11 +53,12 @@ def gen(tier, rng):
         pre += [sess.E("TROFF"), "R5000"]
         variants.append(("interrupted+direct", pre))
         # (d) another program first, then NEW
-        pre = [sess.E(l) for l in other] + [sess.E("RUN"), "R5000"] + ["A5000:" + sess.hx(r) for r in oin]
+        # (the interrupt makes sure the prefix is back at the prompt even if it still waits for input)
+        pre = [sess.E(l) for l in other] + [sess.E("RUN"), "R5000"] + ["A5000:" + sess.hx(r) for r in oin] + ["I", "R5000"]
         pre += [sess.E("TROFF"), "R5000", sess.E("NEW"), "R5000"] + typeit
         variants.append(("other+NEW", pre))
         # (d') another program first, typed over line by line
-        pre = [sess.E(l) for l in other] + [sess.E("RUN"), "R5000"] + ["A5000:" + sess.hx(r) for r in oin]
+        pre = [sess.E(l) for l in other] + [sess.E("RUN"), "R5000"] + ["A5000:" + sess.hx(r) for r in oin] + ["I", "R5000"]
         pre += [sess.E("TROFF"), "R5000"]
         mine = set(l.split(" ")[0] for l in prog)
         for l in other:
